@@ -3,6 +3,7 @@ package rules
 import (
 	"fmt"
 	"os"
+	"regexp"
 	"strings"
 
 	"golang.org/x/tools/go/ssa"
@@ -11,7 +12,7 @@ import (
 	"ivgsa/internal/sym"
 )
 
-func init() { register("C01", ruleC01_4); register("C13", ruleC01_4) }
+func init() { register("C01", ruleC01_4); register("C13", ruleC01_4); register("C17", ruleC01_4) }
 
 // ruleC01_4: framing of the metadata chunks on the writer's side, the mirror of
 // C13.4 (the reader accepts a chunk only if the bytes consumed equal the
@@ -38,6 +39,8 @@ func ruleC01_4(c *Ctx) {
 	isField := func(ptr *sym.Term, idx int) bool {
 		return ptr != nil && ptr.Op == "ptr" && ptr.Obj != nil && strings.HasSuffix(ptr.Obj.ID, "param:e") && ptr.Path.String() == fmt.Sprintf(".%d", idx)
 	}
+	// the scratch buffer: whatever buffer variable other than the output the chunk is assembled in (a field, a local)
+	isScratch := func(ptr *sym.Term) bool { return ptr != nil && ptr.Op == "ptr" && !isField(ptr, bufI) }
 	type chunk struct {
 		start  *sym.Event // identifier written into the scratch buffer
 		length *sym.Event // encodeNatural(len(scratch)) into the output
@@ -52,7 +55,7 @@ func ruleC01_4(c *Ctx) {
 		}
 		switch ev.Kind {
 		case "encode":
-			if ev.Callee == "encodeNatural" && isField(ev.Args[0], altI) && ev.Args[1] != nil && ev.Args[1].IsConst() && len(ev.Loops) == 0 {
+			if ev.Callee == "encodeNatural" && isScratch(ev.Args[0]) && ev.Args[1] != nil && ev.Args[1].IsConst() && len(ev.Loops) == 0 {
 				starts = append(starts, ev)
 			}
 			if ev.Callee == "encodeNatural" && isField(ev.Args[0], bufI) {
@@ -106,7 +109,7 @@ func ruleC01_4(c *Ctx) {
 	}
 	if os.Getenv("IVGSA_DEBUG") != "" {
 		for _, ch := range chunks {
-			fmt.Fprintln(os.Stderr, "chunk", shortKey(ch.start.Args[1]), "app:", ch.app != nil, "len:", ch.length != nil)
+			fmt.Fprintln(os.Stderr, "chunk", shortKey(ch.start.Args[1]), "app:", ch.app != nil, "len:", ch.length != nil, "old:", ch.start.Args[2].Key())
 			if ch.app != nil {
 				fmt.Fprintln(os.Stderr, "   app guard", shortKey(ch.app.Guard))
 			}
@@ -124,6 +127,8 @@ func ruleC01_4(c *Ctx) {
 		old := ch.start.Args[2]
 		empty := old != nil && sym.Len(old).Key() == "0"
 		R.Check(empty, key+":from-empty", c.Pos(ch.start.Site), "the chunk's identifier is written into an empty scratch buffer", "scratch buffer before the identifier: "+shortKey(old))
+		// ... whose storage is not the output's: writing the length into the output must not be able to overwrite the chunk
+		R.Check(old != nil && !mentionsEncField(old, bufI), key+":scratch-disjoint", c.Pos(ch.start.Site), "the scratch buffer shares no storage with the output buffer", "the scratch buffer is carved out of the output buffer: "+shortKey(old))
 		okApp := ch.app != nil && ch.length != nil
 		detail := "no append of the scratch buffer / no length before it"
 		if okApp {
@@ -154,7 +159,7 @@ func ruleC01_4(c *Ctx) {
 					writesOut := ev.Kind == "encode" && isField(ev.Args[0], bufI)
 					if ev.Kind != "encode" {
 						// an append whose result is stored into the output buffer: its base is the output
-						writesOut = sym.Mentions(ev.Args[0], fmt.Sprintf("param:e.%d", bufI)) && !sym.Mentions(ev.Args[0], fmt.Sprintf("param:e.%d", altI))
+						writesOut = mentionsEncField(ev.Args[0], bufI) && !mentionsEncField(ev.Args[0], altI)
 					}
 					if between && writesOut {
 						okApp = false
@@ -235,4 +240,22 @@ func evDominates(a, b *sym.Event) bool {
 		}
 	}
 	return false
+}
+
+
+// mentionsEncField: the term is built from the value of field number idx of the Encoder (its initial value or its
+// value at a loop head / join).
+func mentionsEncField(t *sym.Term, idx int) bool {
+	if idx < 0 {
+		return false
+	}
+	re := regexp.MustCompile(fmt.Sprintf(`param:e\|?\.%d($|[^0-9])`, idx))
+	found := false
+	sym.Walk(t, func(x *sym.Term) bool {
+		if x.Op == "atom" && re.MatchString(x.Name) {
+			found = true
+		}
+		return !found
+	})
+	return found
 }
